@@ -6,8 +6,9 @@ replacement of every token, insertion at every token boundary); the explicit fam
 operands / lacking a current point; long inputs.  Oracle per string:
   1. outcome is 'returns' or 'raises ValueError' (anything else is a violation);
   2. promptness (long family): deterministic Python call count linear in the input, CPU time ratio bounded;
-  3. the segments of all commands that lie entirely before the command containing the first error (strict
-     SVG 2 reference) are retained, in order, with the reference's geometry;
+  3. the segments of the longest valid prefix - everything the strict SVG 2 reference emits before the first
+     error, complete argument groups of the erroneous command included - are retained, in order, with the
+     reference's geometry;
   4. on the returned or partially built path: d(), d(relative=True/False), str, bbox(), length(), abs(p*M)
      never raise and every coordinate of every retained segment is a finite real.
 """
@@ -35,7 +36,7 @@ MANIFEST = dict(
     text="every placement of every fault kind over the corpus is parsed by the real parser; exception type, retained "
          "prefix (against the strict reference), usability of the retained path and promptness (call counts / CPU "
          "ratio on long inputs) are checked on each",
-    note="trusts ref/pathspec.py for the longest-valid-prefix rule (commands entirely before the first error); "
+    note="trusts ref/pathspec.py for the longest-valid-prefix rule (every segment emitted before the first error); "
          "promptness is a deterministic call-count bound plus a generous CPU-time ratio between input sizes",
     design_ref="DESIGN.md section 3 C09")
 ASSUMPTIONS = [
@@ -169,11 +170,13 @@ def check_string(svg, d, out, tags=None, postops=True):
         out.fail("Path(d) and Path().parse(d) disagree on %r" % d, status, s2, kind="disagree", **tags)
     ref = pathspec.parse(d)
     if not ref.contested:
-        need = ref.segments if ref.ok else ref.segments[:ref.required]
+        # the longest valid prefix of the string: everything the reference emitted before the first error, including
+        # the complete argument groups of the command the error is in ("M0,0 L1,1 2,2 3" keeps both lines)
+        need = ref.segments
         need = [s for s in need]
         got = list(p)
         if len(got) < len(need):
-            out.fail("only %d segments retained from %r; the commands before the first error yield %d" % (
+            out.fail("only %d segments retained from %r; the longest valid prefix yields %d" % (
                 len(got), d, len(need)), [s.as_dict() for s in need], [pc.impl_seg_dict(s) for s in got],
                 kind="prefix-short", status=status, **tags)
         else:
